@@ -53,6 +53,8 @@ type lifeSess struct {
 	exited  string
 	minerUp bool
 	shut    bool
+	cbN      int  // tasks handed to the scheduler so far
+	reportCb bool // put the task credit on record (histories compared with the model)
 }
 
 func lifeURL(name string) *url.URL {
@@ -225,6 +227,12 @@ func b2iLife(b bool) int {
 
 func lifeExec(tr *vh.Transcript, ops []string) {
 	maxCached, idle := 2, 10*time.Minute
+	reportCb := false
+	for _, o := range ops {
+		if o == "reportcb" {
+			reportCb = true
+		}
+	}
 	var pools []*vh.FakePool
 	var s *lifeSess
 	defer func() {
@@ -312,6 +320,7 @@ func lifeExec(tr *vh.Transcript, ops []string) {
 			after(op)
 		case "start":
 			s = newLifeSess(maxCached, idle, pools)
+			s.reportCb = reportCb
 			synctest.Wait()
 			s.miner.Send(`{"id":2,"method":"mining.subscribe","params":["cgminer/4.9.0"]}`)
 			synctest.Wait()
@@ -326,7 +335,13 @@ func lifeExec(tr *vh.Transcript, ops []string) {
 				after(op)
 				continue
 			}
-			sc.AddTask(id, lifeURL(f[2]), 1e18, func(float64, string) {}, func(string, float64, float64) {
+			s.cbN++
+			cbK := s.cbN
+			sc.AddTask(id, lifeURL(f[2]), 1e18, func(d float64, _ string) {
+				if s.reportCb { // the histories compared with the model: every share credited to the task is on record
+					s.rec.Add("cb", "%d %d", cbK, int64(d*65536))
+				}
+			}, func(string, float64, float64) {
 				s.rec.Add("session", "task %s miner-disconnected", id)
 				// a contract reacts to this at once by asking the allocator for a replacement: the dying session must not be eligible
 				if !sc.IsDisconnecting() {
@@ -370,11 +385,78 @@ func lifeExec(tr *vh.Transcript, ops []string) {
 			fmt.Sscan(f[1], &ms)
 			time.Sleep(time.Duration(ms) * time.Millisecond)
 			after(op)
+		case "reportcb":
+			tr.Op("%s", op)
 		default:
 			tr.Op("%s", op)
 			tr.Out("bad-op")
 		}
 	}
+}
+
+// lifeGenTask: the regular fragment with one contract task (longer than the history): the miner is switched to the task's
+// pool, the pools fail and are reconnected before and after the switch, and shares — for jobs of the active pool, late ones
+// for jobs of the parked pool, for jobs announced by a connection that has since been replaced — keep coming.  Where they
+// go, under which name, and whether the task is credited is compared with the model op by op.
+func lifeGenTask(r *vh.Rng) []string {
+	ops := []string{"reportcb", fmt.Sprintf("cfg maxcached=%d idle=6000000", 2+r.Intn(2)), "pool pa reach=1 auth=1", "pool pb reach=1 auth=1", "start"}
+	known := map[string][]string{"pa": {"pa-j1"}, "pb": {}}
+	conns := map[string]int{"pa": 1, "pb": 0}
+	active, tasked := "pa", false
+	id, job := 20, 0
+	n := 6 + r.Intn(16)
+	for i := 0; i < n; i++ {
+		switch k := r.Intn(100); {
+		case k < 18:
+			p := vh.Pick(r, []string{"pa", "pb"})
+			if conns[p] == 0 {
+				continue
+			}
+			job++
+			j := fmt.Sprintf("%s-x%d", p, job)
+			ops = append(ops, fmt.Sprintf("pnotify %s %s", p, j))
+			known[p] = append(known[p], j)
+		case k < 55:
+			id++
+			p := active
+			if r.Bool(40) {
+				p = vh.Pick(r, []string{"pa", "pb"})
+			}
+			j := "nojob"
+			if len(known[p]) > 0 && r.Bool(85) {
+				j = vh.Pick(r, known[p])
+			}
+			ops = append(ops, fmt.Sprintf("msubmit %d %s", id, j))
+		case k < 70 && !tasked:
+			ops = append(ops, "task c0 pb 3600000")
+			tasked, active = true, "pb"
+			if conns["pb"] == 0 {
+				conns["pb"] = 1
+				known["pb"] = append(known["pb"], "pb-j1")
+			}
+		case k < 85:
+			// the active pool fails and is reconnected (its jobs of the old connection are forgotten with it)
+			ops = append(ops, "poolclose "+active, "advance 3100")
+			conns[active]++
+			known[active] = []string{fmt.Sprintf("%s-j%d", active, conns[active])}
+		case k < 90:
+			other := "pa"
+			if active == "pa" {
+				other = "pb"
+			}
+			if conns[other] > 0 {
+				ops = append(ops, "poolclose "+other) // a parked connection fails: closed and forgotten
+				known[other] = nil
+				conns[other] = 0
+				if other == "pb" {
+					conns[other] = -1 // not dialled again in this history
+				}
+			}
+		default:
+			ops = append(ops, fmt.Sprintf("advance %d", vh.Pick(r, []int{100, 1000, 3100})))
+		}
+	}
+	return append(ops, "advance 100")
 }
 
 func lifeBubble(t *testing.T, tr *vh.Transcript, ops []string) {
@@ -561,7 +643,11 @@ func TestVerifLifeRegular(t *testing.T) {
 	n := vh.EnvInt("VERIF_N", 200)
 	from := vh.EnvInt("VERIF_FROM", 0)
 	for c := 0; c < n; c++ {
-		ops := lifeGenRegular(root.Fork())
+		rr := root.Fork()
+		ops := lifeGenRegular(rr)
+		if c%3 == 2 {
+			ops = lifeGenTask(rr)
+		}
 		if c < from {
 			continue
 		}
